@@ -39,10 +39,12 @@ const (
 	opCondWait
 	opCondSignal
 	opSched
+	opCtxAfter
+	opCtxAfterStop
 )
 
 var opNames = [...]string{"none", "start", "yield", "lock", "rlock", "unlock", "send", "recv", "select", "close", "atomic",
-	"sleep", "read", "write", "netclose", "choose", "cancel", "newctx", "join", "dial", "rand", "once", "wgwait", "timer", "condwait", "condsignal", "sched"}
+	"sleep", "read", "write", "netclose", "choose", "cancel", "newctx", "join", "dial", "rand", "once", "wgwait", "timer", "condwait", "condsignal", "sched", "ctxafterfunc", "ctxafterfunc-stop"}
 
 func (k opKind) String() string { return opNames[k] }
 
@@ -729,6 +731,21 @@ func (s *Sim) grant(t *Task) string {
 	case opNewCtx:
 		s.registerCtx(r.ctx)
 		return fmt.Sprintf("ctx#%d", r.ctx.seq)
+	case opCtxAfter:
+		af := r.keep.(*ctxAfter)
+		r.ctx.afters = append(r.ctx.afters, af)
+		if r.ctx.err != nil {
+			s.runAfters(r.ctx)
+		}
+		return fmt.Sprintf("ctx#%d", r.ctx.seq)
+	case opCtxAfterStop:
+		af := r.keep.(*ctxAfter)
+		t.resp = response{}
+		if !af.done {
+			af.done = true
+			t.resp.idx = 1
+		}
+		return ""
 	}
 	return ""
 }
